@@ -313,7 +313,7 @@ def refItems : RoiRef → List GItem
   | .segframe seg s =>
     [{ name := cReferencedSegmentationFrame, vt := "IMAGE", rel := "CONTAINS", ref := some seg },
      { name := cSourceImageForSegmentation, vt := "IMAGE", rel := "CONTAINS", ref := some s }]
-  | .regions2d rs => rs.map (fun (gr, s) => { name := cImageRegion, vt := "SCOORD", rel := "CONTAINS", graphic := gr, kids := [srcKid s] })
+  | .regions2d rs => rs.map (fun x => { name := cImageRegion, vt := "SCOORD", rel := "CONTAINS", graphic := x.1, kids := [srcKid x.2] })
   | .segment seg srcs ser =>
     [{ name := cReferencedSegment, vt := "IMAGE", rel := "CONTAINS", ref := some seg }] ++ srcItems srcs ++ seriesItems ser
   | .surface gr n srcs ser =>
@@ -332,8 +332,8 @@ def mkItems (p : Params) : List GItem :=
   optItem cFindingCategory "CODE" "CONTAINS" p.findingCategory ++
   optItem cFinding "CODE" "CONTAINS" p.findingType ++
   p.sites.map (fun s => { name := cFindingSite, vt := "CODE", rel := "HAS CONCEPT MOD", value := s }) ++
-  p.measurements.map (fun (n, v) => { name := n, vt := "NUM", rel := "CONTAINS", value := v }) ++
-  p.evaluations.map (fun (n, v) => { name := n, vt := "CODE", rel := "CONTAINS", value := v }) ++
+  p.measurements.map (fun x => { name := x.1, vt := "NUM", rel := "CONTAINS", value := x.2 }) ++
+  p.evaluations.map (fun x => { name := x.1, vt := "CODE", rel := "CONTAINS", value := x.2 }) ++
   optItem cGeometricPurpose "CODE" "CONTAINS" p.purpose ++
   refItems p.ref
 
@@ -365,5 +365,84 @@ def evaluationsOf (g : Group) : List (String × String) :=
 (set iteration order does not matter: at most one allowed name can equal the item's name) -/
 def referenceTypeOf (g : Group) (allowed : List String) : Option String :=
   (g.items.find? (fun it => allowed.contains it.name)).map (·.name)
+
+/-! ## declarative specification over the construction parameters -/
+
+/-- the reference type a group was constructed with -/
+def RoiRef.refType : RoiRef → Option String
+  | .region2d _ _ | .region3d _ | .regions2d _ => some cImageRegion
+  | .segframe _ _ => some cReferencedSegmentationFrame
+  | .segment _ _ _ => some cReferencedSegment
+  | .surface _ _ _ _ => some cVolumeSurface
+  | .regionInSpace _ => some cRegionInSpace
+  | .images _ => none
+
+/-- the instances a referenced-UID filter can match: segmentation / structure-set instance and source images;
+3-D coordinates (3-D regions, volume surfaces) carry none -/
+def RoiRef.instances : RoiRef → List Ref
+  | .region2d _ s => [s]
+  | .region3d _ => []
+  | .segframe seg s => [seg, s]
+  | .regions2d rs => rs.map (·.2)
+  | .segment seg srcs _ => seg :: srcs
+  | .surface _ _ _ _ => []
+  | .regionInSpace r => [r]
+  | .images srcs => srcs
+
+/-- (2-D?, graphic type) of the first ROI item -/
+def RoiRef.firstGraphic : RoiRef → Option (Bool × String)
+  | .region2d g _ => some (true, g)
+  | .region3d g => some (false, g)
+  | .regions2d ((g, _) :: _) => some (true, g)
+  | .surface g (_ + 1) _ _ => some (false, g)
+  | _ => none
+
+/-- kind of a container WITHOUT template identification, by what it was constructed with -/
+def contentKind : Kind → RoiRef → Bool
+  | .planar, .region2d _ _ | .planar, .region3d _ | .planar, .segframe _ _ | .planar, .regionInSpace _ => true
+  | .planar, .regions2d rs => rs.length == 1
+  | .planar, _ => false
+  | .volumetric, .regions2d rs => decide (rs.length > 1)
+  | .volumetric, .segment _ _ _ | .volumetric, .regionInSpace _ => true
+  | .volumetric, .surface _ n _ _ => decide (n > 0)
+  | .volumetric, _ => false
+  | .image, .images _ => true
+  | .image, .regions2d rs => rs.isEmpty
+  | .image, .surface _ n _ _ => n == 0
+  | .image, _ => false
+
+def specKind (k : Kind) (p : Params) : Bool :=
+  if p.template then p.kind == k else contentKind k p.ref
+
+def optEq (f : Option String) (v : Option String) : Bool :=
+  match f with | none => true | some x => v == some x
+
+/-- the three filters common to all kinds, over the construction parameters -/
+def specCommon (p : Params) (f : Filters) : Bool :=
+  optEq f.findingType p.findingType &&
+  (match f.findingSite with | none => true | some s => p.sites.contains s) &&
+  (match f.trackingUid with | none => true | some u => p.trackingUid == u)
+
+/-- a referenced-UID filter: some referenced instance has the class and the instance UID asked for -/
+def specUid (p : Params) (f : Filters) : Bool :=
+  if f.hasUid then p.ref.instances.any (fun r => refMatches (some r) f.cls f.inst) else true
+
+/-- every filter, stated over the construction parameters -/
+def specFilters (k : Kind) (p : Params) (f : Filters) : Bool :=
+  match k with
+  | .image => specCommon p f && specUid p f
+  | _ =>
+    specCommon p f && optEq f.referenceType p.ref.refType &&
+    (match f.graphic with | none => true | some gt => p.ref.firstGraphic == some gt) && specUid p f
+
+/-- what the constructors accept: the reference fits the kind, region lists / surfaces are not empty -/
+def Params.consistent (p : Params) : Bool :=
+  match p.kind, p.ref with
+  | .planar, .region2d _ _ | .planar, .region3d _ | .planar, .segframe _ _ | .planar, .regionInSpace _ => true
+  | .volumetric, .regions2d rs => !rs.isEmpty
+  | .volumetric, .segment _ _ _ | .volumetric, .regionInSpace _ => true
+  | .volumetric, .surface _ n _ _ => decide (n > 0)
+  | .image, .images _ => true
+  | _, _ => false
 
 end HdVerif.SRReport
